@@ -1,8 +1,7 @@
 SPECIFICATION Spec
 CONSTANTS
   StdMsg <- MCStdMsg
-  Impl416 = FALSE
-  TrimExact = TRUE
+  Modes = {"design", "impl"}
   MaxHops = 3
   Statuses = {400, 401, 403, 404, 416, 418, 429, 500, 503, 599}
   Kinds = {"GET", "HEAD", "PUT", "DELETE", "LIST"}
